@@ -594,6 +594,9 @@ class J1939_22:
             if buffer_hash not in self._snd_buffer:
                 self.__send_tp_abort(dest_address, src_address, session_num, self.ConnectionAbortReason.RESOURCES, pgn)
                 return
+            if self._snd_buffer[buffer_hash]['dest_address'] == ParameterGroupNumber.Address.GLOBAL:
+                # broadcast sessions are not acknowledged
+                return
             # TODO: should we inform the application about the successful transmission?
             # Notify subscribers here to be used for the memory access server to know when to send operation complete
             self.__notify_subscribers(mid.priority, pgn, mid.source_address, dest_address, timestamp, data)
